@@ -256,4 +256,42 @@ theorem parallelInit_sizes (c : PanelCfg) :
     exact h1
   exact key _ (by intro sh x; obtain ⟨f, s⟩ := x; simp)
 
+/-- the columns at which the partition loop stands (the leading columns of the panels it creates) -/
+def cursors (c : PanelCfg) (ukids0 : Array Int) : Nat → InitAcc → List Nat
+  | 0, _ => []
+  | fuel + 1, a => if a.i < c.n then a.i :: cursors c ukids0 fuel (initStep c ukids0 a) else []
+
+theorem initStep_fb (c : PanelCfg) (ukids0 : Array Int) (a : InitAcc) (h : a.i < a.sh.fb.size) :
+    getN (initStep c ukids0 a).sh.fb a.i = a.i ∧ ∀ k, k ≠ a.i → getN (initStep c ukids0 a).sh.fb k = getN a.sh.fb k := by
+  unfold initStep
+  simp only [getN]
+  refine ⟨by simp [h], ?_⟩
+  intro k hk
+  simp [Array.getD_eq_getD_getElem?, Ne.symm hk]
+
+/-- **`fb_cols[p] = p` at every leading column the loop creates** (clause of `initOk2`), every postordered etree / relax / panel size -/
+theorem initLoop_fb (c : PanelCfg) (ukids0 : Array Int) (hps : 1 ≤ c.panelSize) :
+    ∀ fuel a, CurOk c.n a → a.sh.fb.size = c.n + 1 → (∀ p, p < a.i → getN (initLoop c ukids0 fuel a).sh.fb p = getN a.sh.fb p)
+      ∧ ∀ p ∈ cursors c ukids0 fuel a, getN (initLoop c ukids0 fuel a).sh.fb p = p := by
+  intro fuel
+  induction fuel with
+  | zero => intro a _ _; simp [initLoop, cursors]
+  | succ f ih =>
+    intro a h hs
+    unfold initLoop cursors
+    split
+    · rename_i hi
+      have S := initStep_cursor c ukids0 a hps h hi
+      have Z := (initStep_sizes c ukids0 a).2.2
+      have FB := initStep_fb c ukids0 a (by omega)
+      have I := ih (initStep c ukids0 a) S.2.2 (by omega)
+      refine ⟨?_, ?_⟩
+      · intro p hp
+        rw [I.1 p (by omega), FB.2 p (by omega)]
+      · intro p hp
+        rcases List.mem_cons.mp hp with hp | hp
+        · subst hp; rw [I.1 a.i S.1, FB.1]
+        · exact I.2 p hp
+    · simp
+
 end Slu
